@@ -31,6 +31,9 @@ KeyInfo(k) == CASE k = 1 -> <<"short", 1>>        \* "A"
                 [] k = 11 -> <<"eq", 16>>         \* "LONGKEYWITH=SIGN"
                 [] k = 12 -> <<"reserved", 5>>    \* "NAXIS"
                 [] k = 13 -> <<"short", 7>>       \* "D2Y0Z19"
+                [] k = 14 -> <<"reserved", 15>>   \* "ORDERING_SCHEME"  a long name is stored as a HIERARCH card, but the reader
+                [] k = 15 -> <<"reserved", 11>>   \* "PERIODICITY"      filters cards by the same prefixes whatever their length,
+                [] k = 16 -> <<"reserved", 13>>   \* "TYPE_OF_TABLE"    so an accepted one would not survive the round trip
                 [] OTHER -> <<"short", 1>>
 \* value id -> <<type, rendered length, number of single quotes, integer value (ints only)>>
 ValInfo(v) == CASE v = 1 -> <<"int", 2, 0, 42>>
